@@ -60,6 +60,10 @@ HandshakeBytes(serverPub, clientSeed, p) ==
       sh == SharedOfClient(clientSeed, serverPub)
   IN KeyId(serverPub) \o EdPubFromSeed(clientSeed) \o h \o AesCtrXor(HsKey(sh, h), HsIv(sh, h), 0, p)
 
+\* The handshake is a function of (server key, client ephemeral key, session parameters) and of nothing else:
+\* no state carries over between the connections of a process.  A second or third connection to the same server
+\* identity, and the connection a client opens by itself after a drop (reconnect), start from AInit like the first
+\* and their 256 bytes are judged by ParseHandshake exactly like the first one's.
 \* what a server holding serverSeed makes of 256 received bytes
 ParseHandshake(b, serverSeed) ==
   LET kid  == SubSeq(b, 1, 32)
